@@ -346,7 +346,8 @@ func (db *InstructionDB) GetPrefixSize(opcode string, operands ng_operand.Operan
 		prefix66Size = getPrefix66SizeForInOut(upperOpcode, operands) // ヘルパー関数を呼び出し
 	} else {
 		// IN/OUT 以外の命令は従来のロジックを使用
-		if operands.Require66h() {
+		// 制御レジスタとの MOV はオペランドサイズが常に 32 ビットで、codegen も 66h を付けない
+		if operands.Require66h() && !operands.IsControlRegisterOperation() {
 			prefix66Size = 1
 		}
 	}
